@@ -664,6 +664,8 @@ class FunctionParser(BaseParser):
                 continue
             if field.is_required(options=context.options):
                 context.handle_error(exc.AbsenceError(item=field.attname))
+                # reported here: excluded from the keyword pass, which would report it again
+                parsed_keys.append(field.attname)
                 continue
             default = field.get_default(context.options)
             if not unprovided(default):
